@@ -206,7 +206,13 @@ def replay_by_task(dispatch):
         # first the narrowed task; if the failure depends on what the task did before
         # (state carried across cases), the whole task
         for tt in (t, t[:-1] + (None,)):
-            rep = dispatch(tt)
+            try:
+                rep = dispatch(tt)
+            except Exception as e:  # noqa
+                from .run import library_exception_report
+                rep = library_exception_report(e, tt)
+                if rep is None:
+                    raise
             for v in rep.violations:
                 if sig is None or v['signature'] == sig:
                     return v['what']
